@@ -11,6 +11,8 @@ stop_current / stop-all through the web layer's own entry points (WebApp.stop_sc
   - at random points of seeded random-walk schedules;
 a second short script is queued behind, and after the stop the same script (or another) is queued
 again.  Every execution is validated by TLC against spec/TraceStop.tla.
+model level: spec/StopLatch.tla (harness/c09_model.py) - the protocol itself, exhaustively, with variants that
+must fail.
 """
 import random
 
@@ -220,6 +222,8 @@ def task(args):
 
 def run(report, replay=None):
     tier, rng = report.tier, random.Random(report.seed)
+    from harness import c09_model
+    c09_model.check(report)
     stride = 2 if tier == 'thorough' else 7
     budget = 450 if tier == 'thorough' else 60
     walks = 120 if tier == 'thorough' else 14
